@@ -250,3 +250,47 @@ REG.add(counts_lemma('magnitude_counts', 'equally spaced magnitude edges of the 
                       ('poisson.magnitude_test',)))
 REG.add(counts_lemma('spatial_magnitude_counts', 'Cartesian region (RI) with magnitude edges, any permutation', _space_magnitude,
                       ('poisson.conditional_likelihood_test', 'poisson.likelihood_test', 'brier.brier_score_test')))
+
+
+# ---------------------------------------------------------------------------------------------------
+# re-ordering the SYNTHETIC CATALOGS of a catalog forecast: the catalog number test (self-composition of the real function)
+# ---------------------------------------------------------------------------------------------------
+@contract
+class CatalogOrderNumberTest:
+    qualname = 'lemma:C20:catalog number_test under a permutation of the synthetic catalogs'
+    case = 'list-backed forecasts holding the same catalogs in two orders'
+    properties = ('C20',)
+
+    def lemma(c):
+        import contracts.cateval as ce
+        from contracts.catforecast import _list_forecast, SRC, EC
+        from pyvc import spec
+        NT = 'csep.core.catalog_evaluations.number_test'
+        fo1, J, nE = _list_forecast(c, False, min_magnitude=c.real('min_mw'))
+        sg = c.ctx.fresh_fun('sigma', z3.IntSort(), z3.IntSort())
+        tau = c.ctx.fresh_fun('sigma_inv', z3.IntSort(), z3.IntSort())
+        t = z3.Int('t!pm')
+        c.ctx.assume(z3.ForAll([t], z3.Implies(z3.And(0 <= t, t < J), z3.And(0 <= sg(t), sg(t) < J, tau(sg(t)) == t)), patterns=[sg(t)]))
+        c.ctx.assume(z3.ForAll([t], z3.Implies(z3.And(0 <= t, t < J), z3.And(0 <= tau(t), tau(t) < J, sg(tau(t)) == t)), patterns=[tau(t)]))
+        from contracts.catforecast import mk_cat, CF
+        from pyvc.core import SymList
+        f2 = dict(fo1.fields)
+        f2['catalogs'] = SymList(J, lambda k: mk_cat(SRC(sg(to_z3(k)))), 'catalogs (re-ordered)')
+        f2['_event_counts'] = SymList(nE, fo1.fields['_event_counts'].f, '_event_counts')
+        fo2 = c.obj(CF, **f2)
+        fo2.source_order = lambda k: SRC(sg(k))
+        n_obs = c.int('n_obs')
+        c.ctx.assume(n_obs >= 0)
+        obs = c.obj(None, event_count=n_obs, name='obs')
+        r1 = c.inline(NT, fo1, obs, False, _loops={0: ce.NumberLoop()})
+        r2 = c.inline(NT, fo2, obs, False, _loops={0: ce.NumberLoop()})
+        q1, q2 = r1.fields['quantile'], r2.fields['quantile']
+        yield 'observed statistic unchanged', to_z3(r1.fields['observed_statistic']) == to_z3(r2.fields['observed_statistic'])
+        # L5_perm_cge / L5_perm_cle (Lean): threshold counts of a sample are invariant under a bijection of the index range
+        a1 = Arr((J,), lambda ix: EC(SRC(to_z3(ix[0]))), 'int64')
+        a2 = Arr((J,), lambda ix: EC(SRC(sg(to_z3(ix[0])))), 'int64')
+        v = z3.ToReal(n_obs)
+        c.ctx.fact(z3.And(spec.cge(a2, J, v) == spec.cge(a1, J, v), spec.cle(a2, J, v) == spec.cle(a1, J, v)), lemma=True)
+        c.I.used_lemmas.add('L5.permutation_preserves_counts')
+        yield 'delta_1 unchanged', to_real(q1[0]) == to_real(q2[0])
+        yield 'delta_2 unchanged', to_real(q1[1]) == to_real(q2[1])
